@@ -17,7 +17,10 @@ TRUSTED = [
     " SkipSortDocs (active positions and blocks kept), Info.DocsTotal/From/To, sealed fetch (findLIDs ->"
     " getDocPosByLIDs -> block/offset); reload of a sealed fraction is the IDENTITY on these tables in the model —"
     " that the real loader (sealed_loader.go, IDs/LIDs/token block codecs, fraction info cache) reproduces them is"
-    " compared on every run (sealed tables read back through the real loaders before and after a restart), not proved",
+    " compared on every run (sealed tables read back through the real loaders before and after a restart), not proved."
+    " Proved over this model (props/C17/coq/ProofsSeal.v, ProofsForms.v): replay/restart invisibility, seal of a history ="
+    " seal of the repeat-free history, sealed LID table = permutation of the first deliveries, sealed fetch = first"
+    " delivery, and equality of every single-token search observable between active, replayed, sealed and reloaded form",
     "hand-written model props/C17/coq/ModelConc.v of SEVERAL index workers on one active fraction (appendWorker run by"
     " k goroutines): every worker owns a queue of bulks and advances in atomic steps, one per critical section of the"
     " real code — DocBlocks.Append (block index), the WHOLE DocsPositions.SetMultiple under its write lock (lookup and"
